@@ -320,8 +320,47 @@ pub async fn run_server(w: Rc<World>, plan: Rc<Plan>) {
         }
     });
 
-    let factory = v5::MqttServer::new(hs).control(ctl).protocol(proto).publish(publish);
-    let svc = match ServiceFactory::<IoBoxed, SharedCfg>::create(&factory, cfg.clone()).await {
+    if plan.cfg.use_router {
+        // resources as in the client role: "a", "b/{x}", "t/{id}"; everything else goes to `publish`
+        let (wa, wb, wt) = (w.clone(), w.clone(), w.clone());
+        let router = v5::Router::new(publish)
+            .resource(
+                "a",
+                fn_factory_with_config(move |ses: v5::Session<St>| {
+                    let (w, conn) = (wa.clone(), ses.conn);
+                    async move { Ok::<_, AppErr>(fn_service(move |p: v5::Publish| publish_handler(w.clone(), conn, p, "res:a"))) }
+                }),
+            )
+            .resource(
+                "b/{x}",
+                fn_factory_with_config(move |ses: v5::Session<St>| {
+                    let (w, conn) = (wb.clone(), ses.conn);
+                    async move { Ok::<_, AppErr>(fn_service(move |p: v5::Publish| publish_handler(w.clone(), conn, p, "res:b"))) }
+                }),
+            )
+            .resource(
+                "t/{id}",
+                fn_factory_with_config(move |ses: v5::Session<St>| {
+                    let (w, conn) = (wt.clone(), ses.conn);
+                    async move { Ok::<_, AppErr>(fn_service(move |p: v5::Publish| publish_handler(w.clone(), conn, p, "res:t"))) }
+                }),
+            );
+        let factory = v5::MqttServer::new(hs).control(ctl).protocol(proto).publish(router);
+        serve_all(factory, w, plan, cfg).await;
+    } else {
+        let factory = v5::MqttServer::new(hs).control(ctl).protocol(proto).publish(publish);
+        serve_all(factory, w, plan, cfg).await;
+    }
+}
+
+async fn serve_all<F>(factory: F, w: Rc<World>, plan: Rc<Plan>, cfg: SharedCfg)
+where
+    F: ServiceFactory<IoBoxed, SharedCfg, Response = ()>,
+    F::Error: std::fmt::Debug,
+    F::InitError: std::fmt::Debug,
+    F::Service: 'static,
+{
+    let svc = match factory.create(cfg.clone()).await {
         Ok(s) => Pipeline::new(s),
         Err(e) => {
             *w.setup_error.borrow_mut() = Some(format!("server factory: {e:?}"));
@@ -632,6 +671,12 @@ async fn exec_op(
         AppOp::ForceClose => {
             sink.force_close();
             OpResult::Ok(AckInfo::none("force_close"))
+        }
+        AppOp::CloseTwice(code) => {
+            let rc = codec::DisconnectReasonCode::try_from(*code).unwrap_or(codec::DisconnectReasonCode::UnspecifiedError);
+            sink.close_with_reason(codec::Disconnect::new(rc));
+            sink.close();
+            OpResult::Ok(AckInfo::none("close_twice"))
         }
     }
 }
